@@ -278,6 +278,23 @@ PRINT jp + kloc
 PRINT slocal + slocal
 END SUB
 """,
+    """DIM za(0 TO 5) AS INTEGER
+DIM zm(1 TO 2, 0 TO 3) AS LONG
+FOR i% = 0 TO 5: za(i%) = 100 + i%: NEXT
+FOR i% = 1 TO 2: FOR j% = 0 TO 3: zm(i%, j%) = i% * 1000 + j%: NEXT: NEXT
+zh! = 2.5
+zk# = .5
+PRINT za(2.5)
+PRINT za(zh!)
+PRINT za(zk#)
+PRINT za(4.5)
+PRINT za(1.5)
+PRINT za(zh! + 1)
+PRINT za(zh! * 1.8)
+PRINT za(2.4999) + za(2.5001)
+PRINT zm(1.5, zk#)
+PRINT zm(zk# + 1, 2.5)
+""",
     """DIM SHARED zsa(1 TO 3) AS INTEGER
 DIM SHARED zsr AS STRING
 zsa(1) = 1: zsa(2) = 2: zsa(3) = 3
@@ -310,12 +327,174 @@ def build_scenario(i):
     return text, plist, {'arrays': [], 'records': [], 'scalars': []}
 
 
+def scalar_model(mod, cpu):
+    """Independent name -> cell map for scalar parameters, locals, STATIC and SHARED variables, rebuilt from the symbol tables in
+    the debug section: {frame code_start: {name: ('local', idx) | ('global', idx)}}."""
+    from qvm.cell import CellType  # noqa: F401
+    di = mod.debug_info
+    user_types = di.user_types
+
+    def size(t):
+        if t.is_array:
+            if t.is_nodim_array or not all(d.lbound.is_const and d.ubound.is_const for d in t.array_dims):
+                return 1
+            n = 1
+            for d in t.array_dims:
+                n *= int(round(d.ubound.eval())) - int(round(d.lbound.eval())) + 1
+            return 1 + 2 + 2 * len(t.array_dims) + n * size(t.array_base_type)
+        if t.is_user_defined:
+            return sum(size(ft) for ft in user_types[t.user_type_name].fields.values())
+        return 1
+
+    def scalar(t):
+        return not t.is_array and not t.is_user_defined
+    glob = {}
+    pos = 0
+    gorder = list(di.global_vars.items())
+    for name, t in gorder:
+        if scalar(t):
+            glob[name] = ('global', pos)
+        pos += size(t)
+    routines = {'_main': di.main_routine}
+    for name, rec in di.routines.items():
+        routines[name] = rec.node.routine
+    starts = {}
+    ins, ops, sz = cpu.get_instruction_at(0)
+    if ins is not None and ins.op == 'call':
+        a = ops[0]
+        i2, _, s2 = cpu.get_instruction_at(a)
+        if i2 is not None and i2.op == 'frame':
+            starts['_main'] = a + s2
+    for name, rec in di.routines.items():
+        i2, _, s2 = cpu.get_instruction_at(rec.start_offset)
+        if i2 is not None and i2.op == 'frame':
+            starts[name] = rec.start_offset + s2
+    model = {}
+    for name, routine in routines.items():
+        if name not in starts:
+            continue
+        m = {}
+        pos = 0
+        for pn, t in routine.params.items():
+            if scalar(t):
+                m[pn] = ('local', pos)
+            pos += 1
+        for vn, t in routine.local_vars.items():
+            if scalar(t):
+                m[vn] = ('local', pos)
+            pos += size(t)
+        for gn, loc in glob.items():
+            # STATIC variables live in the global area under a routine-qualified name; SHARED ones under their own
+            if gn not in m and not gn.startswith('_'):
+                m[gn] = loc
+        model[starts[name]] = m
+    return model, glob
+
+
+def run_sweep(case, text, st, viol):
+    """Single-step through the whole program; at every stop ask the debugger for every scalar name of every routine and
+    compare with the cell the independent layout model names (current frame's routine decides visibility)."""
+    O = case['k'] % 3
+    c = rt.compile_src(text, O, True)
+    if c.status != 'ok':
+        return
+    mod = rt.load_module(c.modbytes)
+    s = dbgdrv.DbgSession(mod, {}, budget=200000)
+    st['sessions'] += 1
+    try:
+        model, glob = scalar_model(mod, s.cpu)
+    except Exception as e:  # noqa: BLE001
+        st['sweep_model_unavailable'] = st.get('sweep_model_unavailable', 0) + 1
+        return
+    allnames = sorted({n for m in model.values() for n in m if not n.startswith('_')})     # '_...' are the compiler's temporaries
+    cn = f'O{O}g'
+    r = random.Random(case['seed'])
+    stops = 0
+    reported = set()
+    while not s.finished and stops < 150:
+        out, exc = s.do(r.choice(['step', 'step', 'stepi', 'next']))
+        if exc is not None:
+            if exc not in ('tick-budget', 'script-exhausted'):
+                viol.append(V(f'C13:step-crash:{rt.crash_sig(exc)}', f'{cn}: {exc}', text=text))
+            break
+        stops += 1
+        fr = s.cpu.cur_frame
+        if fr is None:
+            continue
+        m = model.get(fr.code_start)
+        if m is None:
+            continue
+        ins = s.cpu.get_instruction_at(s.cpu.pc)[0] if s.cpu.pc < len(mod.code) else None
+        for name in r.sample(allnames, min(6, len(allnames))):
+            d0, _ = state_digest(s.cpu, s.impl)
+            out, exc = s.do('print ' + name)
+            d1, _ = state_digest(s.cpu, s.impl)
+            st['state_digests_compared'] += 1
+            st['sweep_probes'] = st.get('sweep_probes', 0) + 1
+            where = f"stop {stops} (pc {s.cpu.pc:#x}, {ins.op if ins else '?'}, line {getattr(s.cur_stmt(), 'source_start_line', None)})"
+            if exc is not None:
+                k_ = f'C13:print-crash:{rt.crash_sig(exc)}'
+                if k_ not in reported:
+                    reported.add(k_)
+                    viol.append(V(k_, f'{cn}: print {name!r} at {where}: {type(exc).__name__}: {exc}', text=text, expr=name))
+                continue
+            if d0 != d1 and 'state' not in reported:
+                reported.add('state')
+                viol.append(V('C13:print-changed-program-state', f'{cn}: print {name!r} at {where} altered the machine state', text=text))
+            loc = m.get(name)
+            is_err = out.startswith('Eval error') or out.startswith('Error parsing')
+            if loc is None:
+                # a name of another routine: not visible here
+                st['negative_probes'] += 1
+                if not is_err and 'scope' not in reported:
+                    reported.add('scope')
+                    viol.append(V('C13:value-for-name-not-in-scope', f'{cn}: print {name!r} at {where} answered {out.strip()[:60]!r}; '
+                                  f'the routine of the current frame has no such variable', text=text, expr=name))
+                continue
+            seg = s.cpu.globals_segment if loc[0] == 'global' else fr
+            try:
+                cell = seg.cells[loc[1]]
+            except Exception:
+                continue
+            hops = 0
+            while cell is not None and cell.type.name == 'REFERENCE' and hops < 4:
+                ref = cell.value
+                try:
+                    cell = ref.segment.cells[ref.index]
+                except Exception:
+                    cell = None
+                hops += 1
+            if cell is None:
+                continue            # never assigned: the debugger may say so
+            v = cell.value
+            st['probes_compared'] += 1
+            st['sweep_values_compared'] = st.get('sweep_values_compared', 0) + 1
+            ty = {'INTEGER': '%', 'LONG': '&', 'SINGLE': '!', 'DOUBLE': '#', 'STRING': '$'}.get(cell.type.name)
+            if ty is None:
+                continue
+            if is_err:
+                if 'evalerr' not in reported:
+                    reported.add('evalerr')
+                    viol.append(V('C13:eval-error-on-valid-expression', f'{cn}: print {name!r} at {where}: debugger says '
+                                  f'{out.strip()!r}, the cell holds {cell.type.name} {v!r}', text=text, expr=name))
+                continue
+            dv = parse_value(out, ty)
+            if not same(dv, v, ty) and 'value' not in reported:
+                reported.add('value')
+                viol.append(V(f'C13:value-differs:sweep:{ty}', f'{cn}: print {name!r} at {where}: debugger {out.strip()!r}, the cell '
+                              f'the layout model names holds {cell.type.name} {v!r}', text=text, expr=name))
+    st['sweep_stops'] = st.get('sweep_stops', 0) + stops
+
+
 def gen_cases(tier, seed):
     n = 60 if tier == 'quick' else 900
     cs = [{'seed': seed * 100003 + i, 'k': i} for i in range(n)]
     for i in range(len(SCENARIOS)):
         for O in (0, 1, 2):
             cs.append({'scenario': i, 'k': O, 'seed': i})
+            cs.append({'scenario': i, 'k': O, 'seed': seed * 31 + i * 3 + O, 'sweep': True})
+    for i in range(10 if tier == 'quick' else 200):
+        cs.append({'seed': seed * 100003 + i, 'k': i, 'sweep': True})
     return cs
 
 
@@ -325,6 +504,10 @@ def run_case(case):
     viol = []
     shapes = []
     text, plist, names = build(case['seed']) if case.get('scenario') is None else build_scenario(case['scenario'])
+    if case.get('sweep'):
+        run_sweep(case, text, st, viol)
+        return {'viol': viol, 'stats': st, 'shape': [f"sweep|{shape_of(text)}|{case['k'] % 3}"], 'nontrivial': st.get('sweep_probes', 0) > 0,
+                'sample': {'program': text[:300], 'sweep_stops': st.get('sweep_stops', 0), 'sweep_probes': st.get('sweep_probes', 0)}}
     O = case['k'] % 3
     c = rt.compile_src(text, O, True)
     if c.status != 'ok':
